@@ -295,7 +295,8 @@ func (s *Stream) Stop() {
 	// a user sink that blocks forever cannot be interrupted (Go has no goroutine
 	// kill), so it is abandoned after the grace rather than hanging the caller
 	// (e.g. a rulego component Destroy).
-	s.waitLifecycle()
+	deadline := time.Now().Add(defaultStopGrace)
+	drained := s.waitLifecycle()
 	verifhook.At("stop.joined", s, 0, 0, 0)
 
 	// 停止 CEP sweeper：数据处理 goroutine 已 join，不再有并发 Process；紧接的 Flush 看到静止引擎。
@@ -307,7 +308,28 @@ func (s *Stream) Stop() {
 	// 已退出，故同步派发到 sink（不经 pool）——若在 close(done) 后仍走 pool，worker 已退出会
 	// 使 Flush 结果丢失。
 	if s.cep != nil {
-		s.emitCepFlushSync(s.projectCep(s.cep.engine.Flush()))
+		flushed := s.projectCep(s.cep.engine.Flush())
+		if !drained {
+			// A sink is still blocked from before the grace ran out: calling the sinks
+			// inline would hang Stop behind it. Offer the matches to the result channel only.
+			if len(flushed) > 0 {
+				s.sendResultForFlush(flushed)
+				s.log.Warn("Stream.Stop: %d flushed matches not handed to sinks: a sink is blocked", len(flushed))
+			}
+		} else {
+			// The whole Stop is bounded by one grace period: a sink that blocks during
+			// the flush is abandoned like any other blocked sink.
+			delivered := make(chan struct{})
+			go func() {
+				defer close(delivered)
+				s.emitCepFlushSync(flushed)
+			}()
+			select {
+			case <-delivered:
+			case <-time.After(time.Until(deadline)):
+				s.log.Warn("Stream.Stop: flushed matches not delivered within %s; a sink may be blocked", defaultStopGrace)
+			}
+		}
 	}
 
 	// Release table sources (custom sources may own background refresh goroutines).
@@ -378,7 +400,7 @@ const defaultStopGrace = 5 * time.Second
 // waitLifecycle blocks until every tracked goroutine exits or the grace period
 // elapses. If the grace elapses a sink is likely blocked; its goroutine (and the
 // watcher goroutine spawned here) continue until the sink returns.
-func (s *Stream) waitLifecycle() {
+func (s *Stream) waitLifecycle() bool {
 	drained := make(chan struct{})
 	go func() {
 		s.lifecycle.Wait()
@@ -386,8 +408,10 @@ func (s *Stream) waitLifecycle() {
 	}()
 	select {
 	case <-drained:
+		return true
 	case <-time.After(defaultStopGrace):
 		s.log.Warn("Stream.Stop: goroutines did not exit within %s; a sink may be blocked", defaultStopGrace)
+		return false
 	}
 }
 
